@@ -495,14 +495,25 @@ theorem s3_shape {t : Time} {c : InitCtx} {m : Msg} {c3 : InitCtx3} (h : initSig
   obtain ⟨_, _, _, _, _, _, _, _, _, _, _, _, _, _, _, _, _, hs3⟩ := initiator_sigma2_implies_auth t c m c3 h
   exact ⟨_, hs3⟩
 
-theorem devS1_resp {A : Attacker} {cfg : HsCfg} (hs : FullSetting A cfg) {i : IState} {r : RState}
+theorem s1_is_sigma1 (cfg : HsCfg) : ∃ a b c d e, cfg.init0.s1 = .sigma1 a b c d e :=
+  ⟨_, _, _, _, _, rfl⟩
+
+theorem initSigma2Resume_not_s2r (c : InitCtx) (m : Msg) (h : ∀ a b d, m ≠ .sigma2Resume a b d) :
+    initSigma2Resume c m = none := by
+  unfold initSigma2Resume
+  split
+  · rename_i a b d _ _; exact absurd rfl (h a b d)
+  · rfl
+
+theorem devS1_resp {cfg : HsCfg} {i : IState} {r : RState}
     {wire : List Msg} (hd : DevS1 cfg i r wire) (m : Msg) (hm : m ∈ wire) :
     DevS1 cfg i (stepResp cfg r m).1 (wire ++ (stepResp cfg r m).2) := by
   obtain ⟨m1, ctxX, hne, hX, hr, hi, hw⟩ := hd
   obtain ⟨a, b, c, d, hs2⟩ := sent_s2_shape hX
+  obtain ⟨a1, b1, c1, d1, e1, hs1⟩ := s1_is_sigma1 cfg
   have hrej : respSigma3 cfg.t ctxX m = none := by
     rcases hw m hm with h | h | h
-    · rw [h, s1_shape hs]; rfl
+    · rw [h, hs1]; rfl
     · rw [h, hs2]; rfl
     · rw [h]; rfl
   refine ⟨m1, ctxX, hne, hX, ?_, hi, ?_⟩
@@ -516,20 +527,24 @@ theorem devS1_resp {A : Attacker} {cfg : HsCfg} (hs : FullSetting A cfg) {i : IS
       · rw [h'] at h; simp [stepResp, hrej] at h; exact Or.inr (Or.inr h)
       · rw [h'] at h; simp [stepResp] at h
 
-theorem devS1_init {A : Attacker} {cfg : HsCfg} (hs : FullSetting A cfg) {i : IState} {r : RState}
+theorem devS1_init {cfg : HsCfg} {i : IState} {r : RState}
     {wire : List Msg} (hd : DevS1 cfg i r wire) (m : Msg) (hm : m ∈ wire) :
     DevS1 cfg (stepInit cfg i m).1 r (wire ++ (stepInit cfg i m).2) := by
   obtain ⟨m1, ctxX, hne, hX, hr, hi, hw⟩ := hd
   obtain ⟨a, b, c, d, hs2⟩ := sent_s2_shape hX
+  obtain ⟨a1, b1, c1, d1, e1, hs1⟩ := s1_is_sigma1 cfg
   have hrej2 : initSigma2 cfg.t cfg.init0 m = none := by
     rcases hw m hm with h | h | h
-    · rw [h, s1_shape hs]; rfl
+    · rw [h, hs1]; rfl
     · rw [h]; exact tamper_sigma1_no_session _ _ _ _ _ _ ctxX _ _ hX hne
     · rw [h]; rfl
   have hrejr : initSigma2Resume cfg.init0 m = none := by
-    unfold initSigma2Resume
-    rw [hs.hfull]
-    split <;> simp_all
+    apply initSigma2Resume_not_s2r
+    intro a' b' d' hc
+    rcases hw m hm with h | h | h
+    · rw [h, hs1] at hc; cases hc
+    · rw [h, hs2] at hc; cases hc
+    · rw [h] at hc; cases hc
   refine ⟨m1, ctxX, hne, hX, hr, ?_, ?_⟩
   · rcases hi with h | h
     · rw [h]; simp [stepInit, hrej2, hrejr]
@@ -945,7 +960,7 @@ theorem invFull_step {A : Attacker} {cfg : HsCfg} (hs : FullSetting A cfg) (n : 
         · unfold InvFull
           rw [h1, h2, h3]
           rcases hd with h | h
-          · exact Or.inr ⟨rfl, Or.inl (devS1_resp hs h m hw)⟩
+          · exact Or.inr ⟨rfl, Or.inl (devS1_resp h m hw)⟩
           · exact Or.inr ⟨rfl, Or.inr (devS2_resp hs h m hw)⟩
       | toInit m =>
         rcases step_toInit cfg n m with h | ⟨h1, h2, h3⟩
@@ -953,7 +968,7 @@ theorem invFull_step {A : Attacker} {cfg : HsCfg} (hs : FullSetting A cfg) (n : 
         · unfold InvFull
           rw [h1, h2, h3]
           rcases hd with h | h
-          · exact Or.inr ⟨rfl, Or.inl (devS1_init hs h m hw)⟩
+          · exact Or.inr ⟨rfl, Or.inl (devS1_init h m hw)⟩
           · exact Or.inr ⟨rfl, Or.inr (devS2_init hs h m hw)⟩
     · intro _ hk1; rw [hk] at hk1; cases hk1
 
@@ -1048,5 +1063,608 @@ theorem net_full_keys_agree {A : Attacker} {cfg : HsCfg} (hs : FullSetting A cfg
     simp only at hr
     have := keys_agree cfg.t cfg.t ctx cfg.init0 ctx.s2 c3 sR sI rR rI h30 hr hi
     exact ⟨this.2.2.1, this.2.2.2.1, this.2.2.2.2.1, this.2.2.2.2.2.1, this.2.2.2.2.2.2⟩
+
+/-! ## Resumed handshake -/
+
+/-- a session up to the peer's session id: resumption authenticates (shared secret, initiator
+random, resumption id) only — the session ids travel unauthenticated, as in the Matter
+specification; a session with a wrong peer session id is unusable, not misbound -/
+def modSid (s : Session) : Session := { s with peerSid := .none }
+
+def Result.modSid : Result → Result := Option.map fun p => (C01.modSid p.1, p.2)
+
+structure ResumeSetting (A : Attacker) (cfg : HsCfg) where
+  rI : Nat
+  sI : Nat
+  rR : Nat
+  idR : Nat
+  sR : Nat
+  ipk : Nat
+  ridOld : Nat
+  hrndI : cfg.rndI = .atom rI
+  hsidI : cfg.sidI = .atom sI
+  hrndR : cfg.rndR = .atom rR
+  hridR : cfg.ridR = .atom idR
+  hsidR : cfg.sidR = .atom sR
+  hipk : cfg.fI.ipk = .atom ipk
+  hephI : cfg.ephI ∈ A.H
+  hephR : cfg.ephR ∈ A.H
+  /-- the initiator holds a record for the peer … -/
+  recI : ResRec
+  hcached : cfg.init0.cached = some recI
+  hrid : recI.rid = .atom ridOld
+  /-- … whose shared secret (like those of the responder's records) the attacker does not know -/
+  x : Nat
+  y : Nat
+  hsecI : recI.secret = .shared x y
+  hx : x ∈ A.H
+  hy : y ∈ A.H
+  hcacheR : ∀ r ∈ cfg.cacheR, ∃ x y, r.secret = .shared x y ∧ x ∈ A.H ∧ y ∈ A.H
+  hcert : ∀ c ic, A.C c → CaseValid cfg.t cfg.fI.view c ic → nodeIdOf c.subject = some cfg.peer →
+    ¬ A.S c.pubKey
+  /-- the responder resumes in the untouched run -/
+  cx0 : RespResumeCtx
+  hcx0 : respResume cfg.fabricsR cfg.cacheR cfg.init0.s1 cfg.ridR cfg.sidR = some cx0
+
+def mic1 {A : Attacker} {cfg : HsCfg} (hs : ResumeSetting A cfg) : Term :=
+  Term.mic (resumeKey hs.recI.secret cfg.rndI hs.recI.rid infoS1RK) nonceR1
+
+theorem s1r_shape {A : Attacker} {cfg : HsCfg} (hs : ResumeSetting A cfg) :
+    cfg.init0.s1 = .sigma1 cfg.rndI cfg.sidI
+      (destId cfg.fI.ipk cfg.rndI cfg.fI.root.pubKey cfg.fI.fabricId cfg.peer) (.epk cfg.ephI)
+      (some (hs.recI.rid, mic1 hs)) := by
+  have h := hs.hcached
+  simp only [HsCfg.init0, initSigma1] at h ⊢
+  rw [h]; rfl
+
+/-- the responder's `Sigma2_Resume` of the untouched run -/
+theorem cx0_shape {A : Attacker} {cfg : HsCfg} (hs : ResumeSetting A cfg) :
+    ∃ rec ∈ cfg.cacheR, rec.rid = hs.recI.rid ∧ rec.secret = hs.recI.secret ∧ hs.cx0.record = rec ∧
+      hs.cx0.newRid = cfg.ridR ∧
+      hs.cx0.s2r = .sigma2Resume cfg.ridR
+        (Term.mic (resumeKey rec.secret cfg.rndI cfg.ridR infoS2RK) nonceR2) cfg.sidR := by
+  obtain ⟨rec, hrec, iRnd, iSid, dest, iEph, hm, hr, hn, hs2r, _⟩ :=
+    respResume_some _ _ _ _ _ hs.cx0 hs.hcx0
+  rw [s1r_shape hs] at hm
+  simp only [Msg.sigma1.injEq, Option.some.injEq, Prod.mk.injEq, mic1, Term.mic.injEq, resumeKey,
+    Term.kdf.injEq, Term.pair.injEq] at hm
+  obtain ⟨hrnd, _, _, _, hrid, ⟨hsec, _, _⟩, _⟩ := hm
+  refine ⟨rec, hrec, hrid.symm, hsec.symm, hr, hn, ?_⟩
+  rw [hs2r, ← hrnd]
+
+/-- a responder context that differs from the untouched run's at most in the peer session id -/
+def CxOK {A : Attacker} {cfg : HsCfg} (hs : ResumeSetting A cfg) (cx : RespResumeCtx) : Prop :=
+  cx.s2r = hs.cx0.s2r ∧ cx.record = hs.cx0.record ∧ cx.newRid = hs.cx0.newRid ∧
+    modSid cx.session = modSid hs.cx0.session
+
+/-- `Resume1MIC` covers the initiator random and the resumption id only -/
+theorem respResume_modSid (fabrics : List Fabric) (cache : List ResRec) (r s d e s' d' e' rid mic : Term)
+    (nr sid : Term) (cx : RespResumeCtx)
+    (h : respResume fabrics cache (.sigma1 r s d e (some (rid, mic))) nr sid = some cx) :
+    ∃ cx', respResume fabrics cache (.sigma1 r s' d' e' (some (rid, mic))) nr sid = some cx' ∧
+      cx'.s2r = cx.s2r ∧ cx'.record = cx.record ∧ cx'.newRid = cx.newRid ∧
+      modSid cx'.session = modSid cx.session := by
+  unfold respResume at h ⊢
+  simp only at h ⊢
+  split at h
+  · cases h
+  · rename_i rec hrec
+    split at h
+    · cases h
+    · rename_i hmic
+      split at h
+      · cases h
+      · rename_i f hf
+        simp only [Option.some.injEq] at h
+        subst h
+        simp [hmic, modSid]
+
+theorem clean_wire_G_resume {A : Attacker} {cfg : HsCfg} (hs : ResumeSetting A cfg) (wire : List Msg)
+    (hw : ∀ w ∈ wire, w = cfg.init0.s1 ∨ w = .status false ∨ w = .status true ∨ w = hs.cx0.s2r) :
+    ∀ w ∈ wire, G A.H A.S A.C (wireE wire) w.toTerm := by
+  intro w hwm
+  rcases hw w hwm with h | h | h | h
+  · have hmem : w ∈ wire := hwm
+    rw [h, s1r_shape hs] at hmem
+    rw [h, s1r_shape hs, hs.hrndI, hs.hsidI, hs.hipk, hs.hrid]
+    rw [hs.hrndI, hs.hsidI, hs.hipk, hs.hrid] at hmem
+    simp only [Msg.toTerm, resumeTerm, destId, G, true_and, and_true]
+    refine Or.inl ⟨?_, mem_wireE hmem (by simp [encOf, mic1])⟩
+    simp only [resumeKey, hs.hsecI]
+    exact isSecH_kdf hs.hx hs.hy _ _
+  · rw [h]; simp [Msg.toTerm, G]
+  · rw [h]; simp [Msg.toTerm, G]
+  · obtain ⟨rec, hrec, _, _, _, _, hs2r⟩ := cx0_shape hs
+    obtain ⟨x, y, hsec, hx, hy⟩ := hs.hcacheR rec hrec
+    have hmem : w ∈ wire := hwm
+    rw [h, hs2r] at hmem
+    rw [h, hs2r, hs.hridR, hs.hsidR]
+    rw [hs.hridR, hs.hsidR] at hmem
+    simp only [Msg.toTerm, G, true_and, and_true]
+    refine Or.inl ⟨?_, mem_wireE hmem (by simp [encOf])⟩
+    simp only [resumeKey, hsec]
+    exact isSecH_kdf hx hy _ _
+
+def sameButSid (m m' : Msg) : Prop :=
+  ∃ a b s s', m = .sigma2Resume a b s ∧ m' = .sigma2Resume a b s'
+
+structure CleanRes {A : Attacker} {cfg : HsCfg} (hs : ResumeSetting A cfg) (i : IState) (r : RState)
+    (wire : List Msg) : Prop where
+  wire_ok : ∀ w ∈ wire, w = cfg.init0.s1 ∨ w = .status false ∨ w = .status true ∨ w = hs.cx0.s2r
+  i_ok : i = .sent1 cfg.init0 ∨ i = .done none ∨
+    ∃ m' p, sameButSid m' hs.cx0.s2r ∧ initSigma2Resume cfg.init0 m' = some p ∧ i = .done (some p)
+  r_ok : r = .idle ∨ (∃ cx, CxOK hs cx ∧ r = .sent2r cx) ∨ r = .done none ∨
+    ∃ cx, CxOK hs cx ∧ r = .done (respResumeFinish cx (.status true))
+  idle : r = .idle → (∀ w ∈ wire, w = cfg.init0.s1 ∨ w = .status false) ∧
+    (i = .sent1 cfg.init0 ∨ i = .done none)
+
+theorem respResumeFinish_cases (cx : RespResumeCtx) (m : Msg) :
+    respResumeFinish cx m = none ∨ respResumeFinish cx m = respResumeFinish cx (.status true) := by
+  unfold respResumeFinish
+  split
+  · right; rfl
+  · left; rfl
+
+theorem cleanRes_resp {A : Attacker} {cfg : HsCfg} (hs : ResumeSetting A cfg) {i : IState} {r : RState}
+    {wire : List Msg} (hc : CleanRes hs i r wire) (m : Msg)
+    (hg : G A.H A.S A.C (wireE wire) m.toTerm) :
+    CleanRes hs i (stepResp cfg r m).1 (wire ++ (stepResp cfg r m).2) ∨
+      (m ∉ wire ∧ DevS1 cfg i (stepResp cfg r m).1 (wire ++ (stepResp cfg r m).2)) := by
+  rcases hc.r_ok with hr | ⟨cx, hcx, hr⟩ | hr | ⟨cx, hcx, hr⟩
+  · obtain ⟨hwi, hii⟩ := hc.idle hr
+    cases hrr : respResume cfg.fabricsR cfg.cacheR m cfg.ridR cfg.sidR with
+    | some cx =>
+      have hstep : stepResp cfg r m = (.sent2r cx, [cx.s2r]) := by rw [hr]; simp [stepResp, hrr]
+      rw [hstep]
+      left
+      -- the MIC it accepted is the one of the initiator's Sigma1
+      obtain ⟨rec, _, iRnd, iSid, dest, iEph, hm, hmem⟩ := respResume_G _ _ _ _ _ cx hs.hcacheR hrr hg
+      obtain ⟨w, hww, hwe⟩ := List.mem_flatMap.1 hmem
+      have hmic : Term.mic (resumeKey rec.secret iRnd rec.rid infoS1RK) nonceR1 = mic1 hs := by
+        rcases hwi w hww with h | h
+        · rw [h, s1r_shape hs] at hwe; simpa [encOf] using hwe
+        · rw [h] at hwe; simp [encOf] at hwe
+      have hmic' := hmic
+      simp only [mic1, Term.mic.injEq, resumeKey, Term.kdf.injEq, Term.pair.injEq] at hmic'
+      obtain ⟨⟨_, ⟨hrnd, hrid⟩, _⟩, _⟩ := hmic'
+      rw [hmic, hrnd, hrid] at hm
+      have h0 := hs.hcx0
+      rw [s1r_shape hs] at h0
+      obtain ⟨cx', hcx', e1, e2, e3, e4⟩ :=
+        respResume_modSid _ _ _ _ _ _ iSid dest iEph _ _ _ _ _ h0
+      rw [← hm, hrr] at hcx'
+      cases hcx'
+      have hok : CxOK hs cx := ⟨e1, e2, e3, e4⟩
+      refine ⟨?_, hc.i_ok, Or.inr (Or.inl ⟨cx, hok, rfl⟩), ?_⟩
+      · intro w hw
+        rcases List.mem_append.1 hw with h | h
+        · exact hc.wire_ok w h
+        · simp only [List.mem_cons, List.not_mem_nil, or_false] at h
+          rw [h, e1]; exact Or.inr (Or.inr (Or.inr rfl))
+      · intro h; cases h
+    | none =>
+      cases hr1 : respSigma1 cfg.fabricsR m cfg.ephR cfg.rndR cfg.ridR cfg.sidR with
+      | sent ctx =>
+        have hstep : stepResp cfg r m = (.sent2 ctx, [ctx.s2]) := by rw [hr]; simp [stepResp, hrr, hr1]
+        rw [hstep]
+        right
+        have hm : m ≠ cfg.init0.s1 := by
+          intro h; rw [h, hs.hcx0] at hrr; cases hrr
+        refine ⟨?_, m, ctx, hm, hr1, Or.inl rfl, hii, ?_⟩
+        · intro hw
+          rcases hwi m hw with h | h
+          · exact hm h
+          · rw [h] at hr1; simp [respSigma1] at hr1
+        · intro w hw
+          rcases List.mem_append.1 hw with h | h
+          · rcases hwi w h with h' | h'
+            · exact Or.inl h'
+            · exact Or.inr (Or.inr h')
+          · simp only [List.mem_cons, List.not_mem_nil, or_false] at h
+            exact Or.inr (Or.inl h)
+      | refused =>
+        have hstep : stepResp cfg r m = (.done none, [.status false]) := by
+          rw [hr]; simp [stepResp, hrr, hr1]
+        rw [hstep]
+        left
+        refine ⟨?_, hc.i_ok, Or.inr (Or.inr (Or.inl rfl)), ?_⟩
+        · intro w hw
+          rcases List.mem_append.1 hw with h | h
+          · exact hc.wire_ok w h
+          · simp only [List.mem_cons, List.not_mem_nil, or_false] at h
+            exact Or.inr (Or.inl h)
+        · intro h; cases h
+  · have hstep : stepResp cfg r m = (.done (respResumeFinish cx m), []) := by rw [hr]; simp [stepResp]
+    rw [hstep, List.append_nil]
+    left
+    refine ⟨hc.wire_ok, hc.i_ok, ?_, ?_⟩
+    · rcases respResumeFinish_cases cx m with h | h
+      · rw [h]; exact Or.inr (Or.inr (Or.inl rfl))
+      · rw [h]; exact Or.inr (Or.inr (Or.inr ⟨cx, hcx, rfl⟩))
+    · intro h; cases h
+  · left
+    have hstep : stepResp cfg r m = (r, []) := by rw [hr]; simp [stepResp]
+    rw [hstep, List.append_nil]; exact hc
+  · left
+    have hstep : stepResp cfg r m = (r, []) := by rw [hr]; simp [stepResp]
+    rw [hstep, List.append_nil]; exact hc
+
+theorem cleanRes_init {A : Attacker} {cfg : HsCfg} (hs : ResumeSetting A cfg) {i : IState} {r : RState}
+    {wire : List Msg} (hc : CleanRes hs i r wire) (m : Msg)
+    (hg : G A.H A.S A.C (wireE wire) m.toTerm) :
+    CleanRes hs (stepInit cfg i m).1 r (wire ++ (stepInit cfg i m).2) := by
+  obtain ⟨rec0, hrec0, _, hsec0, _, _, hs2r⟩ := cx0_shape hs
+  rcases hc.i_ok with hi | hi | ⟨m', p, hsame, hp, hi⟩
+  · cases hrr : initSigma2Resume cfg.init0 m with
+    | some p =>
+      have hstep : stepInit cfg i m = (.done (some p), [.status true]) := by
+        rw [hi]; simp [stepInit, hrr]
+      rw [hstep]
+      have hcc : ∀ r, cfg.init0.cached = some r → ∃ x y, r.secret = .shared x y ∧ x ∈ A.H ∧ y ∈ A.H := by
+        intro r hr
+        rw [hs.hcached] at hr; cases hr
+        exact ⟨hs.x, hs.y, hs.hsecI, hs.hx, hs.hy⟩
+      obtain ⟨rec, newRid, rSid, hcd, hm, hmem⟩ := initSigma2Resume_G cfg.init0 m p hcc hrr hg
+      rw [hs.hcached] at hcd; cases hcd
+      obtain ⟨w, hww, hwe⟩ := List.mem_flatMap.1 hmem
+      have hsb : sameButSid m hs.cx0.s2r := by
+        rcases hc.wire_ok w hww with h | h | h | h
+        · rw [h, s1r_shape hs] at hwe
+          simp [encOf, mic1, nonceR1, nonceR2] at hwe
+        · rw [h] at hwe; simp [encOf] at hwe
+        · rw [h] at hwe; simp [encOf] at hwe
+        · rw [h, hs2r] at hwe
+          simp only [encOf, List.mem_cons, List.not_mem_nil, or_false] at hwe
+          have hwe' := hwe
+          simp only [Term.mic.injEq, resumeKey, Term.kdf.injEq, Term.pair.injEq] at hwe'
+          obtain ⟨⟨_, ⟨_, hnr⟩, _⟩, _⟩ := hwe'
+          refine ⟨_, _, rSid, cfg.sidR, ?_, hs2r⟩
+          rw [hm, hwe, hnr]
+      have hnotidle : r ≠ .idle := by
+        intro hr
+        obtain ⟨a, b, s, s', h1, h2⟩ := hsb
+        rcases hc.wire_ok w hww with h | h | h | h
+        · rw [h, s1r_shape hs] at hwe; simp [encOf, mic1, nonceR1, nonceR2] at hwe
+        · rw [h] at hwe; simp [encOf] at hwe
+        · rw [h] at hwe; simp [encOf] at hwe
+        · rcases (hc.idle hr).1 w hww with h' | h'
+          · rw [h, h2, s1r_shape hs] at h'; cases h'
+          · rw [h, h2] at h'; cases h'
+      refine ⟨?_, Or.inr (Or.inr ⟨m, p, hsb, hrr, rfl⟩), hc.r_ok, fun hr => absurd hr hnotidle⟩
+      intro w hw
+      rcases List.mem_append.1 hw with h | h
+      · exact hc.wire_ok w h
+      · simp only [List.mem_cons, List.not_mem_nil, or_false] at h
+        exact Or.inr (Or.inr (Or.inl h))
+    | none =>
+      have h2 : initSigma2 cfg.t cfg.init0 m = none := by
+        cases h2 : initSigma2 cfg.t cfg.init0 m with
+        | none => rfl
+        | some c3 =>
+          exfalso
+          obtain ⟨_, _, _, _, _, hmem⟩ := initSigma2_G cfg.t cfg.init0 m c3 hs.hcert h2 hg
+          obtain ⟨w, hww, hwe⟩ := List.mem_flatMap.1 hmem
+          rcases hc.wire_ok w hww with h | h | h | h
+          · rw [h, s1r_shape hs] at hwe; simp [encOf, mic1] at hwe
+          · rw [h] at hwe; simp [encOf] at hwe
+          · rw [h] at hwe; simp [encOf] at hwe
+          · rw [h, hs2r] at hwe; simp [encOf] at hwe
+      have hstep : stepInit cfg i m = (.done none, [.status false]) := by
+        rw [hi]; simp [stepInit, hrr, h2]
+      rw [hstep]
+      refine ⟨?_, Or.inr (Or.inl rfl), hc.r_ok, ?_⟩
+      · intro w hw
+        rcases List.mem_append.1 hw with h | h
+        · exact hc.wire_ok w h
+        · simp only [List.mem_cons, List.not_mem_nil, or_false] at h
+          exact Or.inr (Or.inl h)
+      · intro hr
+        refine ⟨?_, Or.inr rfl⟩
+        intro w hw
+        rcases List.mem_append.1 hw with h | h
+        · exact (hc.idle hr).1 w h
+        · simp only [List.mem_cons, List.not_mem_nil, or_false] at h
+          exact Or.inr h
+  · have hstep : stepInit cfg i m = (i, []) := by rw [hi]; simp [stepInit]
+    rw [hstep, List.append_nil]; exact hc
+  · have hstep : stepInit cfg i m = (i, []) := by rw [hi]; simp [stepInit]
+    rw [hstep, List.append_nil]; exact hc
+
+def InvRes {A : Attacker} {cfg : HsCfg} (hs : ResumeSetting A cfg) (n : Net) (k : Nat) : Prop :=
+  CleanRes hs n.i n.r n.wire ∨ (k = 0 ∧ DevS1 cfg n.i n.r n.wire)
+
+theorem invRes_step {A : Attacker} {cfg : HsCfg} (hs : ResumeSetting A cfg) (n : Net) (k : Nat)
+    (op : NetOp) (hinv : InvRes hs n k) :
+    (op.msg ∈ n.wire → InvRes hs (n.step cfg op) k) ∧
+    (Forgeable A cfg n op.msg → k = 1 → InvRes hs (n.step cfg op) 0) := by
+  rcases hinv with hc | ⟨hk, hd⟩
+  · have hG : ∀ m, Forgeable A cfg n m → G A.H A.S A.C (wireE n.wire) m.toTerm :=
+      fun m hf => forgeable_G A cfg n hs.ipk hs.hipk (clean_wire_G_resume hs n.wire hc.wire_ok) m hf
+    have key : ∀ m, Forgeable A cfg n m →
+        (m ∈ n.wire → ∀ op, op.msg = m → CleanRes hs (n.step cfg op).i (n.step cfg op).r (n.step cfg op).wire) ∧
+        (∀ op, op.msg = m → InvRes hs (n.step cfg op) 0) := by
+      intro m hf
+      have hg := hG m hf
+      have hR := cleanRes_resp hs hc m hg
+      have hI := cleanRes_init hs hc m hg
+      refine ⟨?_, ?_⟩
+      · intro hw op hop
+        cases op with
+        | toResp m' =>
+          cases hop
+          rcases step_toResp cfg n m' with h | ⟨h1, h2, h3⟩
+          · rw [h]; exact hc
+          · rw [h1, h2, h3]
+            rcases hR with h | h
+            · exact h
+            · exact absurd hw h.1
+        | toInit m' =>
+          cases hop
+          rcases step_toInit cfg n m' with h | ⟨h1, h2, h3⟩
+          · rw [h]; exact hc
+          · rw [h1, h2, h3]; exact hI
+      · intro op hop
+        cases op with
+        | toResp m' =>
+          cases hop
+          rcases step_toResp cfg n m' with h | ⟨h1, h2, h3⟩
+          · rw [h]; exact Or.inl hc
+          · unfold InvRes
+            rw [h1, h2, h3]
+            rcases hR with h | h
+            · exact Or.inl h
+            · exact Or.inr ⟨rfl, h.2⟩
+        | toInit m' =>
+          cases hop
+          rcases step_toInit cfg n m' with h | ⟨h1, h2, h3⟩
+          · rw [h]; exact Or.inl hc
+          · unfold InvRes
+            rw [h1, h2, h3]; exact Or.inl hI
+    refine ⟨?_, ?_⟩
+    · intro hw
+      exact Or.inl ((key op.msg (relay_forgeable A cfg n _ hw)).1 hw op rfl)
+    · intro hf _
+      exact (key op.msg hf).2 op rfl
+  · refine ⟨?_, ?_⟩
+    · intro hw
+      subst hk
+      cases op with
+      | toResp m =>
+        rcases step_toResp cfg n m with h | ⟨h1, h2, h3⟩
+        · rw [h]; exact Or.inr ⟨rfl, hd⟩
+        · unfold InvRes
+          rw [h1, h2, h3]
+          exact Or.inr ⟨rfl, devS1_resp hd m hw⟩
+      | toInit m =>
+        rcases step_toInit cfg n m with h | ⟨h1, h2, h3⟩
+        · rw [h]; exact Or.inr ⟨rfl, hd⟩
+        · unfold InvRes
+          rw [h1, h2, h3]
+          exact Or.inr ⟨rfl, devS1_init hd m hw⟩
+    · intro _ hk1; rw [hk] at hk1; cases hk1
+
+/-- the results of the untouched resumed run -/
+def hResIr {A : Attacker} {cfg : HsCfg} (hs : ResumeSetting A cfg) : Result :=
+  initSigma2Resume cfg.init0 hs.cx0.s2r
+
+def hResRr {A : Attacker} {cfg : HsCfg} (hs : ResumeSetting A cfg) : Result :=
+  respResumeFinish hs.cx0 (.status true)
+
+/-- each end: no session, or the session of the untouched run (up to the unauthenticated peer
+session id) with the same rotated cache record -/
+def OutcomeRes {A : Attacker} {cfg : HsCfg} (hs : ResumeSetting A cfg) (n : Net) : Prop :=
+  (n.i.result = none ∨ Result.modSid n.i.result = Result.modSid (hResIr hs)) ∧
+  (n.r.result = none ∨ Result.modSid n.r.result = Result.modSid (hResRr hs))
+
+theorem initResume_modSid (c : InitCtx) (a b s s' : Term) (p : Session × ResRec)
+    (h : initSigma2Resume c (.sigma2Resume a b s) = some p) :
+    Result.modSid (initSigma2Resume c (.sigma2Resume a b s')) = Result.modSid (some p) := by
+  unfold initSigma2Resume at h ⊢
+  cases hc : c.cached with
+  | none => rw [hc] at h; simp at h
+  | some r =>
+    rw [hc] at h
+    simp only at h ⊢
+    split at h
+    · cases h
+    · rename_i hmic
+      simp only [Option.some.injEq] at h
+      subst h
+      simp [hmic, Result.modSid, modSid]
+
+theorem invRes_outcome {A : Attacker} {cfg : HsCfg} (hs : ResumeSetting A cfg) {n : Net} {k : Nat}
+    (h : InvRes hs n k) : OutcomeRes hs n := by
+  rcases h with hc | ⟨_, hd⟩
+  · constructor
+    · rcases hc.i_ok with h | h | ⟨m', p, ⟨a, b, s, s', h1, h2⟩, hp, h⟩
+      · rw [h]; left; rfl
+      · rw [h]; left; rfl
+      · rw [h]; right
+        show Result.modSid (some p) = _
+        unfold hResIr
+        rw [h2]
+        rw [h1] at hp
+        exact (initResume_modSid _ _ _ _ _ _ hp).symm
+    · rcases hc.r_ok with h | ⟨_, _, h⟩ | h | ⟨cx, ⟨_, e2, e3, e4⟩, h⟩
+      · rw [h]; left; rfl
+      · rw [h]; left; rfl
+      · rw [h]; left; rfl
+      · rw [h]; right
+        simp [RState.result, hResRr, respResumeFinish, Result.modSid, e2, e3, e4]
+  · obtain ⟨_, _, _, _, hr, hi, _⟩ := hd
+    constructor
+    · rcases hi with h | h <;> rw [h] <;> simp [IState.result]
+    · rcases hr with h | h <;> rw [h] <;> simp [RState.result]
+
+theorem invRes_run {A : Attacker} {cfg : HsCfg} (hs : ResumeSetting A cfg) :
+    ∀ (n : Net) (k : Nat) (ops : List NetOp), Sched A cfg n k ops → k ≤ 1 → InvRes hs n k →
+      OutcomeRes hs (n.run cfg ops) := by
+  intro n k ops hsched
+  induction hsched with
+  | nil n k => intro _ hinv; exact invRes_outcome hs hinv
+  | relay n k op ops hw _ ih =>
+    intro hk hinv
+    exact ih hk ((invRes_step hs n k op hinv).1 hw)
+  | forge n k op ops hf _ ih =>
+    intro hk hinv
+    have hk0 : k = 0 := by omega
+    subst hk0
+    exact ih (by omega) ((invRes_step hs n 1 op hinv).2 hf rfl)
+
+/-- **C01, network form (resumed handshake)**: the same statement for a handshake in which the
+initiator offers resumption and the responder accepts it — every schedule, at most one message
+of the attacker's own making (which covers every mutation of the resumption id, either MIC, any
+other field of Sigma1 / Sigma2_Resume, and the final status report): each end finishes with no
+session or the session of the untouched run — identity (fabric, node id, CATs) and keys taken
+from the cached record whose shared secret made the MIC — up to the peer session id, and the same
+rotated cache record. -/
+theorem net_single_mutation_resume {A : Attacker} {cfg : HsCfg} (hs : ResumeSetting A cfg)
+    (ops : List NetOp) (hsched : Sched A cfg (Net.start cfg) 1 ops) :
+    OutcomeRes hs ((Net.start cfg).run cfg ops) := by
+  apply invRes_run hs _ 1 ops hsched (Nat.le_refl 1)
+  left
+  refine ⟨?_, Or.inl rfl, Or.inl rfl, ?_⟩
+  · intro w hw
+    simp only [Net.start, List.mem_cons, List.not_mem_nil, or_false] at hw
+    exact Or.inl hw
+  · intro _
+    refine ⟨?_, Or.inl rfl⟩
+    intro w hw
+    simp only [Net.start, List.mem_cons, List.not_mem_nil, or_false] at hw
+    exact Or.inl hw
+
+/-- … and whenever both hold a session, the same directional keys and the same new resumption id -/
+theorem net_resume_keys_agree {A : Attacker} {cfg : HsCfg} (hs : ResumeSetting A cfg)
+    (ops : List NetOp) (hsched : Sched A cfg (Net.start cfg) 1 ops) (sI sR : Session) (rI rR : ResRec)
+    (hI : ((Net.start cfg).run cfg ops).i.result = some (sI, rI))
+    (hR : ((Net.start cfg).run cfg ops).r.result = some (sR, rR)) :
+    sR.i2r = sI.i2r ∧ sR.r2i = sI.r2i ∧ rR.rid = rI.rid := by
+  obtain ⟨h1, h2⟩ := net_single_mutation_resume hs ops hsched
+  rw [hI] at h1; rw [hR] at h2
+  have hi : Result.modSid (some (sI, rI)) = Result.modSid (hResIr hs) := by
+    rcases h1 with h | h; cases h; exact h
+  have hr : Result.modSid (some (sR, rR)) = Result.modSid (hResRr hs) := by
+    rcases h2 with h | h; cases h; exact h
+  unfold hResIr at hi
+  unfold hResRr at hr
+  cases hi0 : initSigma2Resume cfg.init0 hs.cx0.s2r with
+  | none => rw [hi0] at hi; simp [Result.modSid] at hi
+  | some pI =>
+    obtain ⟨sI0, rI0⟩ := pI
+    have hr0 : respResumeFinish hs.cx0 (.status true) =
+        some (hs.cx0.session, { hs.cx0.record with rid := hs.cx0.newRid }) := rfl
+    have hagree := resume_keys_agree cfg.fI cfg.cacheI cfg.cacheR cfg.peer cfg.ephI cfg.rndI cfg.sidI
+      cfg.fabricsR cfg.ridR cfg.sidR hs.cx0 _ sI0 _ rI0 hs.hcx0 hr0 hi0
+    rw [hi0] at hi
+    rw [hr0] at hr
+    simp only [Result.modSid, Option.map_some, Option.some.injEq, Prod.mk.injEq, modSid] at hi hr
+    obtain ⟨hi1, hi2⟩ := hi
+    obtain ⟨hr1, hr2⟩ := hr
+    simp only [Session.mk.injEq] at hi1 hr1
+    have e1 : sI.i2r = sI0.i2r := hi1.2.2.2.2.1
+    have e2 : sI.r2i = sI0.r2i := hi1.2.2.2.2.2.1
+    have e3 : sR.i2r = hs.cx0.session.i2r := hr1.2.2.2.2.1
+    have e4 : sR.r2i = hs.cx0.session.r2i := hr1.2.2.2.2.2.1
+    rw [e1, e2, e3, e4, hi2, hr2]
+    exact hagree
+
+/-! ## Non-vacuity of the network theorems -/
+
+def exCfg : HsCfg :=
+  { t := C19.exT, fabricsR := [devFabric], cacheR := [], fI := ctlFabric, cacheI := [], peer := 200,
+    ephI := 11, ephR := 12, rndI := .atom 501, sidI := .atom 601, rndR := .atom 502,
+    ridR := .atom 702, sidR := .atom 602 }
+
+/-- knows neither ephemeral secret, signs with key 66 only, holds the responder's certificate -/
+def exAttacker : Attacker := { H := [11, 12], S := (· = 66), C := (· = devNoc) }
+
+def exFullSetting : FullSetting exAttacker exCfg :=
+  { rI := 501, sI := 601, rR := 502, idR := 702, sR := 602, ipk := 77,
+    hrndI := rfl, hsidI := rfl, hrndR := rfl, hridR := rfl, hsidR := rfl, hipk := rfl,
+    hephI := by decide, hephR := by decide, hcacheR := (by intro r hr; cases hr),
+    hfull := rfl,
+    hcert := (by
+      intro c ic hc _ _
+      have : c = devNoc := hc
+      subst this
+      show ¬ (devNoc.pubKey = 66)
+      decide) }
+
+/-- the untouched run completes on both ends … -/
+example : (hResI exCfg).isSome = true ∧ (hResR exCfg).isSome = true := by decide
+/-- … it is what the run function computes on the in-order schedule … -/
+example : ((Net.start exCfg).run exCfg (honestOps exCfg)).i.result = hResI exCfg ∧
+    ((Net.start exCfg).run exCfg (honestOps exCfg)).r.result = hResR exCfg := by decide
+/-- … and the in-order schedule is admissible without any forgery -/
+example : Sched exAttacker exCfg (Net.start exCfg) 0 (honestOps exCfg) :=
+  .relay _ _ _ _ (by decide) (.relay _ _ _ _ (by decide) (.relay _ _ _ _ (by decide)
+    (.relay _ _ _ _ (by decide) (.nil _ _))))
+
+/-- duplicated and reordered deliveries are admissible and harmless (de-duplication) -/
+example :
+    let s1 := exCfg.init0.s1
+    let s2 := exResp.s2
+    ((Net.start exCfg).run exCfg [.toResp s1, .toResp s1, .toInit s1, .toInit s2]).i.result = none := by
+  decide
+
+/-- a forged first message (truncated Sigma1 = junk) is an admissible single mutation; nobody
+ends with a session -/
+example : Sched exAttacker exCfg (Net.start exCfg) 1 [.toResp (.junk 5), .toInit (.status false)] :=
+  .forge _ _ _ _ (.pair (.atom _) (.atom _)) (.relay _ _ _ _ (by decide) (.nil _ _))
+example : ((Net.start exCfg).run exCfg [.toResp (.junk 5), .toInit (.status false)]).r.result = none ∧
+    ((Net.start exCfg).run exCfg [.toResp (.junk 5), .toInit (.status false)]).i.result = none := by
+  decide
+
+/-- the theorem applied -/
+example : OutcomeFull exCfg ((Net.start exCfg).run exCfg (honestOps exCfg)) :=
+  net_single_mutation_full exFullSetting _
+    (.relay _ _ _ _ (by decide) (.relay _ _ _ _ (by decide) (.relay _ _ _ _ (by decide)
+      (.relay _ _ _ _ (by decide) (.nil _ _)))))
+
+/-! resumed handshake: both ends hold the record of an earlier handshake (secret `shared 3 4`) -/
+
+def exRecI : ResRec := { fabIdx := 1, peerNode := 200, cats := [], rid := .atom 700, secret := .shared 3 4 }
+def exRecR : ResRec := { fabIdx := 2, peerNode := 5, cats := [65537], rid := .atom 700, secret := .shared 3 4 }
+
+def exCfgR : HsCfg := { exCfg with cacheI := [exRecI], cacheR := [exRecR] }
+
+def exAttackerR : Attacker := { H := [3, 4, 11, 12], S := (· = 66), C := (· = devNoc) }
+
+def exCx0 : RespResumeCtx :=
+  (respResume exCfgR.fabricsR exCfgR.cacheR exCfgR.init0.s1 exCfgR.ridR exCfgR.sidR).getD default
+
+def exResumeSetting : ResumeSetting exAttackerR exCfgR :=
+  { rI := 501, sI := 601, rR := 502, idR := 702, sR := 602, ipk := 77, ridOld := 700,
+    hrndI := rfl, hsidI := rfl, hrndR := rfl, hridR := rfl, hsidR := rfl, hipk := rfl,
+    hephI := by decide, hephR := by decide,
+    recI := exRecI, hcached := by decide, hrid := rfl, x := 3, y := 4, hsecI := rfl,
+    hx := by decide, hy := by decide,
+    hcacheR := (by
+      intro r hr
+      have : r = exRecR := by simpa [exCfgR] using hr
+      subst this
+      exact ⟨3, 4, rfl, by decide, by decide⟩),
+    hcert := (by
+      intro c ic hc _ _
+      have : c = devNoc := hc
+      subst this
+      show ¬ (devNoc.pubKey = 66)
+      decide),
+    cx0 := exCx0,
+    hcx0 := (by
+      have h : (respResume exCfgR.fabricsR exCfgR.cacheR exCfgR.init0.s1 exCfgR.ridR exCfgR.sidR).isSome = true := by
+        decide
+      unfold exCx0
+      cases hh : respResume exCfgR.fabricsR exCfgR.cacheR exCfgR.init0.s1 exCfgR.ridR exCfgR.sidR with
+      | none => rw [hh] at h; cases h
+      | some v => rfl) }
+
+/-- the untouched resumed run completes on both ends with the record's identity … -/
+example : ((hResRr exResumeSetting).map fun p => (p.1.fabIdx, p.1.peerNode, p.1.cats)) =
+    some (2, 5, [65537]) := by decide
+example : (hResIr exResumeSetting).isSome = true := by decide
+/-- … computed by the run function on the in-order schedule -/
+example : ((Net.start exCfgR).run exCfgR (honestOps exCfgR)).i.result = hResIr exResumeSetting ∧
+    ((Net.start exCfgR).run exCfgR (honestOps exCfgR)).r.result = hResRr exResumeSetting := by decide
 
 end C01
